@@ -68,6 +68,37 @@ pub fn split(uri: &str) -> Option<Parts> {
     Some(Parts { scheme: scheme.to_string(), userinfo, host, port, path, query })
 }
 
+/// look-alike targets mapped just BEFORE the judged one: a pure mapping is unaffected by them, one that remembers
+/// earlier work (a cache keyed too coarsely: case-insensitive, without user-info, without port / query ...) is not
+pub fn neighbours(p: &Parts, idx: u64) -> Vec<String> {
+    let swap = |s: &str| -> String { s.chars().map(|c| if c.is_ascii_lowercase() { c.to_ascii_uppercase() } else if c.is_ascii_uppercase() { c.to_ascii_lowercase() } else { c }).collect() };
+    let mut out = vec![];
+    // 1. authority with the letter case swapped (user-info included; %XX escapes keep their hex digits valid either way)
+    let mut a = p.clone();
+    a.userinfo = a.userinfo.as_ref().map(|u| swap(u));
+    a.host = swap(&a.host);
+    out.push(a.to_uri());
+    // 2. one more, rotating: other credentials / no credentials / other port / other query / other scheme spelling / other path case
+    let mut b = p.clone();
+    match idx % 6 {
+        0 => b.userinfo = Some("other:secret".into()),
+        1 => b.userinfo = None,
+        2 => b.port = Some(if p.port.as_deref() == Some("8080") { "8081".into() } else { "8080".into() }),
+        3 => b.query = Some("other=query".into()),
+        4 => {
+            b.scheme = match p.scheme.as_str() {
+                "ipp" => "ipps".into(),
+                "ipps" => "ipp".into(),
+                "http" => "https".into(),
+                _ => "http".into(),
+            }
+        }
+        _ => b.path = swap(&p.path),
+    }
+    out.push(b.to_uri());
+    out
+}
+
 pub fn norm_path(p: &str) -> &str {
     if p.is_empty() {
         "/"
